@@ -162,7 +162,7 @@ def solve_one(ob_id, smt, model_terms, timeout_s, want_both=False, expect="unsat
     return res
 
 
-def solve_all(obligations, timeout_s=20, want_both=False, progress=None, retry=True):
+def solve_all(obligations, timeout_s=20, want_both=False, progress=None, retry=True, retry_pass=False):
     """obligations: list of sym.Obligation. Returns {id: Result}."""
     jobs = []
     _tmpdir()
@@ -172,7 +172,8 @@ def solve_all(obligations, timeout_s=20, want_both=False, progress=None, retry=T
         jobs.append((ob, smt, terms))
     results = {}
     with concurrent.futures.ThreadPoolExecutor(max_workers=JOBS) as ex:
-        futs = {ex.submit(solve_one, ob.id, smt, terms, timeout_s, want_both, ob.expect): ob for ob, smt, terms in jobs}
+        futs = {ex.submit(solve_one, ob.id, smt, terms, min(timeout_s, ob.meta.get("budget", timeout_s)) if not retry_pass else timeout_s,
+                          want_both, ob.expect): ob for ob, smt, terms in jobs}
         for f in concurrent.futures.as_completed(futs):
             ob = futs[f]
             r = f.result()
